@@ -2005,7 +2005,11 @@ impl Compiler {
                 [] => return self.error(ErrorKind::MissingImportItem),
                 [single_item] => self.push_op(Copy, &[result_register, *single_item]),
                 _ => {
-                    self.push_op(SequenceStart, &[imported.len() as u8]);
+                    let Ok(size_hint) = u32::try_from(imported.len()) else {
+                        return self.error(ErrorKind::TooManyContainerEntries(imported.len()));
+                    };
+                    self.push_op(SequenceStart, &[]);
+                    self.push_var_u32(size_hint);
                     for item in imported.iter() {
                         self.push_op(SequencePush, &[*item]);
                     }
